@@ -129,7 +129,21 @@ func genOtherRec(rt *rapid.T, tk *tokens, kind string, collide bool) kenc.Rec {
 		return kenc.Rec{Type: recgen.EXECVE, Fields: kenc.Execve(args)}
 	case "sockaddr":
 		tk.n++
-		switch rapid.IntRange(0, 2).Draw(rt, "sockfam") {
+		switch rapid.IntRange(0, 5).Draw(rt, "sockfam") {
+		case 3, 4:
+			// families the parser does not decode (netlink, packet, anything else): the raw address stays a field
+			fam := byte(16)
+			if rapid.Bool().Draw(rt, "otherfam") {
+				fam = rapid.SampledFrom([]byte{0, 3, 17, 29, 38, 40, 255}).Draw(rt, "fam")
+			}
+			raw := []byte{fam, 0, byte(tk.n >> 24), byte(tk.n >> 16), byte(tk.n >> 8), byte(tk.n)}
+			raw = append(raw, rapid.SliceOfN(rapid.Byte(), 0, 10).Draw(rt, "sockraw")...)
+			return kenc.Rec{Type: recgen.SOCKADDR, Fields: []kenc.F{{K: "saddr", Enc: kenc.HexAlways, V: raw}}}
+		case 5:
+			// a decodable family with an address too short to decode
+			fam := rapid.SampledFrom([]byte{1, 2, 10}).Draw(rt, "shortfam")
+			raw := []byte{fam, 0, 'a' + byte(tk.n/26%26), 'a' + byte(tk.n%26)} // text bytes: a short unix address is a path
+			return kenc.Rec{Type: recgen.SOCKADDR, Fields: []kenc.F{{K: "saddr", Enc: kenc.HexAlways, V: raw[:rapid.IntRange(2, 4).Draw(rt, "shortlen")]}}}
 		case 0:
 			return kenc.Rec{Type: recgen.SOCKADDR, Fields: []kenc.F{{K: "saddr", Enc: kenc.HexAlways,
 				V: kenc.SockaddrInet([4]byte{10, byte(tk.n >> 16), byte(tk.n >> 8), byte(tk.n)}, uint16(20000+tk.n%40000), [8]byte{})}}}
@@ -369,6 +383,7 @@ type recSnap struct {
 	typ  uint16
 	data map[string]string
 	tags []string
+	err  string // Data() refused the record (e.g. an address too short for its family)
 }
 
 func parseGroup(c C09Case) ([]*auparse.AuditMessage, []recSnap, error) {
@@ -381,15 +396,19 @@ func parseGroup(c C09Case) ([]*auparse.AuditMessage, []recSnap, error) {
 		}
 		msgs = append(msgs, m)
 		d, err := m.Data()
+		derr := ""
 		if err != nil && r.Type != recgen.EOE {
-			return nil, nil, fmt.Errorf("Data() of %q: %v", r.Raw(), err)
+			if r.Type != recgen.SOCKADDR {
+				return nil, nil, fmt.Errorf("Data() of %q: %v", r.Raw(), err)
+			}
+			derr = err.Error() // only the generated short socket addresses are refused by Data()
 		}
 		cp := map[string]string{}
 		for k, v := range d {
 			cp[k] = v
 		}
 		tg, _ := m.Tags()
-		snaps = append(snaps, recSnap{r.Type, cp, append([]string(nil), tg...)})
+		snaps = append(snaps, recSnap{r.Type, cp, append([]string(nil), tg...), derr})
 	}
 	return msgs, snaps, nil
 }
@@ -460,6 +479,14 @@ func propC09(c C09Case) error {
 	seenKeys := map[string]bool{}
 	for _, s := range snaps {
 		tname := auparse.AuditMessageType(s.typ).String()
+		if s.err != "" {
+			// the record could not be decoded at all: a warning has to say so (by the parser's message or by naming the record)
+			if !strings.Contains(warn, s.err) && !warningCovers(ev.Warnings, "\x00", tname) {
+				return fmt.Errorf("%s\n  the %s record cannot be decoded (%s) and no warning says so\n  event=%s\n  warnings=%q", c.Describe(), tname, s.err, b, warn)
+			}
+			hC09.Class("undecodable-record-covered-by-warning")
+			continue
+		}
 		for k, v := range s.data {
 			if s.typ == recgen.SYSCALL && k == "items" {
 				continue // dropped on purpose
